@@ -163,11 +163,19 @@ def zstd_decompress(src, dict_bytes=b""):
         z.ZSTD_freeDCtx(d)
 
 
-def zstd_compress(src, dict_bytes=b"", level=3):
+def zstd_compress(src, dict_bytes=b"", level=3, content_size=True, frames=1):
+    """content_size=False: the frame header omits the optional content-size field (what a streaming encoder emits);
+    frames=n: the content cut in n pieces, each its own frame, concatenated (a legal zstd stream)."""
+    if frames > 1 and len(src) >= frames:
+        step = len(src) // frames
+        cuts = [src[i * step:(i + 1) * step] for i in range(frames - 1)] + [src[(frames - 1) * step:]]
+        return b"".join(zstd_compress(c_, dict_bytes, level, content_size, 1) for c_ in cuts)
     z = _zstd()
     c = z.ZSTD_createCCtx()
     try:
         z.ZSTD_CCtx_setParameter(c, 100, level)  # ZSTD_c_compressionLevel
+        if not content_size:
+            z.ZSTD_CCtx_setParameter(c, 200, 0)  # ZSTD_c_contentSizeFlag
         if dict_bytes:
             z.ZSTD_CCtx_loadDictionary(c, dict_bytes, len(dict_bytes))
         cap = z.ZSTD_compressBound(len(src))
@@ -529,7 +537,7 @@ def reseal(data):
 
 
 def make_file(pieces, comp_type=0, dict_bytes=b"", hash_type=1, chunk_hash_type=1, uncomp=False,
-              level=3, opt_elems=None, detached=False, header_tail=b"", stored_empty_dict=False):
+              level=3, opt_elems=None, detached=False, header_tail=b"", stored_empty_dict=False, content_size=True, frames=1):
     """Build a valid file from content pieces without libzck.
     stored_empty_dict: no dictionary, but the first index entry stores the zstd frame of nothing (9 bytes stored, 0 bytes of content) -
     what a writer that compresses every entry alike produces; libzck itself stores no bytes for an absent dictionary."""
@@ -547,7 +555,7 @@ def make_file(pieces, comp_type=0, dict_bytes=b"", hash_type=1, chunk_hash_type=
                    len(sd), len(dict_bytes)))
     stored.append(sd)
     for pc in pieces:
-        s = pc if comp_type == 0 else zstd_compress(pc, dict_bytes, level)
+        s = pc if comp_type == 0 else zstd_compress(pc, dict_bytes, level, content_size, frames)
         chunks.append((H(chunk_hash_type, s), H(chunk_hash_type, pc) if uncomp else None, len(s), len(pc)))
         stored.append(s)
     flags = (4 if uncomp else 0) | (2 if opt_elems is not None else 0)
